@@ -347,7 +347,8 @@ class SourceWorld(BaseWorld):
             how = weighted(rng, [(6, 'compiler'), (2, 'from_mal_spec'), (2, 'reuse'),
                                  (2, 'reuse_after_error')])
             return {'op': 'compile_layout', 'files': files, 'path_form': form, 'how': how,
-                    'dot_includes': rng.random() < 0.2}
+                    'dot_includes': rng.random() < 0.2,
+                    'bad': rng.choice(['missing', 'syntax']), 'second': rng.choice(['same', 'fresh'])}
         # C17
         nfiles = len(self.files)
         target = rng.randrange(nfiles)
@@ -424,7 +425,10 @@ class SourceWorld(BaseWorld):
                 with open(os.path.join(d, 'zz_bad_root.mal'), 'w') as f:
                     f.write('include "zz_bad_inc.mal"\n')
                 with open(os.path.join(d, 'zz_bad_inc.mal'), 'w') as f:
-                    f.write('#id: "x"\ninclude "zz_no_such_file.mal"\n')
+                    if op.get('bad') == 'syntax':
+                        f.write('#id: "x"\ncategory Sys {\n  aset Host {\n')     # a draft, not MAL yet
+                    else:
+                        f.write('#id: "x"\ninclude "zz_no_such_file.mal"\n')
                 c = self.comp.MalCompiler()
                 bad = os.path.join(os.path.dirname(root), 'zz_bad_root.mal') if os.path.dirname(root) \
                     else 'zz_bad_root.mal'
@@ -432,8 +436,13 @@ class SourceWorld(BaseWorld):
                 if not first.raised:
                     raise Violation('C04.layout_invariant', 'a root whose include chain ends in a '
                                                             'missing file compiled without an error')
-                o = self._compile(root, compiler=c)
-                self.count('probe:compiler_instance_reused_after_error')
+                if op.get('second') == 'fresh':
+                    # ... or a brand-new compiler in a process that refused a source before
+                    o = self._compile(root)
+                    self.count('probe:compiled_after_another_source_was_refused')
+                else:
+                    o = self._compile(root, compiler=c)
+                    self.count('probe:compiler_instance_reused_after_error')
             elif how == 'reuse':
                 # one compiler instance, two roots in the same directory
                 c = self.comp.MalCompiler()
